@@ -565,6 +565,7 @@ func (ce *c15Env) monitor(rep *Report, step int, o C15Op, before, after c15State
 		viol("C15:undecodable-accepted", "an undecodable extended commit changed prices", nil)
 		return
 	}
+	var noQuorum []string
 	for _, pi := range changed {
 		hash := c15PairHash(c15PairNames[pi])
 		seen := map[string]bool{}
@@ -604,13 +605,16 @@ func (ce *c15Env) monitor(rep *Report, step int, o C15Op, before, after c15State
 		lhs := new(big.Int).Mul(w, big.NewInt(3))
 		rhs := new(big.Int).Mul(before.TotalTk, big.NewInt(2))
 		if lhs.Cmp(rhs) < 0 || before.TotalTk.Sign() <= 0 {
-			viol("C15:no-quorum", fmt.Sprintf("price of %s changed with validly signed distinct power %s of %s (< 2/3)", c15PairNames[pi], w, before.TotalTk),
-				map[string]string{"pair": c15PairNames[pi], "signed_power": w.String(), "total_power": before.TotalTk.String()})
+			noQuorum = append(noQuorum, fmt.Sprintf("%s: validly signed distinct power %s of %s", c15PairNames[pi], w, before.TotalTk))
 		}
 		// (5) timestamps strictly increase per pair
 		if before.Quotes[pi].Has && !(after.Quotes[pi].TS > before.Quotes[pi].TS) {
 			viol("C15:timestamp-not-increasing", fmt.Sprintf("%s rewritten with timestamp %d over stored %d", c15PairNames[pi], after.Quotes[pi].TS, before.Quotes[pi].TS), nil)
+			break
 		}
+	}
+	if len(noQuorum) > 0 {
+		viol("C15:no-quorum", "price changed with less than 2/3 of the recorded power behind validly signed commit votes of distinct validators: "+noQuorum[0], noQuorum)
 	}
 }
 
@@ -880,18 +884,67 @@ func (g *c15Gen) oracleOp() C15Op {
 				votes = append(votes, d)
 			}
 		}
-	case 2, 4:
+	case 2:
 		for _, en := range members {
 			if r.Chance(12) {
 				continue
 			}
 			votes = append(votes, mk(en.Val, 15*r.Intn(2)))
 		}
+	case 4:
+		// validly signed commit votes holding less than two thirds; every other validator also supplies
+		// prices but in ONE defective way (so that dropping a single check lets the update through);
+		// repeated entries of the signed votes get the summed power over the first threshold
+		total := new(big.Int)
+		for _, en := range g.inSet {
+			total.Add(total, big.NewInt(en.Power))
+		}
+		acc := new(big.Int)
+		defect := r.Intn(5)
+		o.Note = "unsigned-mix-" + []string{"noncommit-ext-nosig", "noncommit-ext-forged", "commit-forged", "commit-nosig", "commit-swapped"}[defect]
+		var signed []C15Vote
+		for _, en := range members {
+			nxt := new(big.Int).Add(acc, big.NewInt(en.Power))
+			over := new(big.Int).Mul(nxt, big.NewInt(3)).Cmp(new(big.Int).Mul(total, big.NewInt(2))) >= 0
+			v := mk(en.Val, 0)
+			if !over {
+				acc = nxt
+				signed = append(signed, v)
+				votes = append(votes, v)
+				continue
+			}
+			switch defect {
+			case 0:
+				v.Flag, v.Sig = int32(cmtproto.BlockIDFlagNil), nil
+			case 1:
+				v.Flag, v.Sig = int32(cmtproto.BlockIDFlagAbsent), r.Bytes(64)
+			case 2:
+				v.Sig = r.Bytes(64)
+			case 3:
+				v.Sig = nil
+			case 4:
+				v.Sig = ce.sign(ce.Vals[members[0].Val], chain, h1, int64(o.Round), v.Ext)
+				if members[0].Val == en.Val {
+					v.Sig = r.Bytes(64)
+				}
+			}
+			v.Note = "defective"
+			votes = append(votes, v)
+		}
+		if len(signed) > 0 && r.Chance(70) {
+			for k := 0; k < 2*len(signed); k++ {
+				votes = append(votes, signed[r.Intn(len(signed))])
+			}
+		}
 	}
 	// perturbations
 	perturb := func(v *C15Vote) string {
 		u := ce.Vals[int(ce.addrID(v.Addr))-1]
-		switch r.Intn(15) {
+		switch r.Intn(16) {
+		case 15:
+			v.Flag = int32([]cmtproto.BlockIDFlag{cmtproto.BlockIDFlagAbsent, cmtproto.BlockIDFlagNil, cmtproto.BlockIDFlagUnknown}[r.Intn(3)])
+			v.Sig = nil
+			return "non-commit-ext-nosig"
 		case 0:
 			v.Sig = r.Bytes(64)
 			return "forged"
@@ -952,9 +1005,7 @@ func (g *c15Gen) oracleOp() C15Op {
 	pct := 0
 	if shape == 2 {
 		pct = 18
-	} else if shape == 4 {
-		pct = 45
-	} else if r.Chance(20) {
+	} else if shape != 4 && r.Chance(20) {
 		pct = 8
 	}
 	for i := range votes {
@@ -1094,7 +1145,7 @@ func init() { register("C15", genC15) }
 func genC15(seed uint64, tier string, outdir string) *Report {
 	rep := NewReport("C15", seed, tier)
 	rep.Rule = "a case is one history of oracle updates, validator-set refreshes, executor / bridge-info changes on a fresh chain; distinct by hash of the op list; non-trivial = at least one oracle update accepted and at least one rejected"
-	nCases, nOps := 36, 22
+	nCases, nOps := 72, 22
 	if tier == "thorough" {
 		nCases, nOps = 600, 30
 	}
